@@ -22,6 +22,38 @@ PLAT = """<?xml version='1.0'?>
 TYID = {"d": 0, "i": 1, "c": 2, "b": 6}       # Datatype::encode of MPI_DOUBLE, MPI_INT, MPI_CHAR, MPI_BYTE
 KEY_RECV0 = "ti-coll-recvcount-zero-omitted"
 KEY_STALE = "replay-test-stale-null-request"
+KEY_SAMEKEY = "replay-same-key-requests-paired-differently"
+KEY_OOO = "replay-same-key-waited-out-of-order"
+SOFT_KEYS = (KEY_STALE, KEY_OOO)      # proposed findings: printed, not failing, until registered in known_findings.txt
+
+
+def gen_samekey_step(rng, n):
+    """Several requests with the SAME (sender, receiver, tag) pending at once on one rank, each completed by its own
+    MPI_Wait, in the order they were posted, with a message to a third rank after each wait (so that WHICH request a wait
+    completes is visible in the dates of another rank).  The TI record of a wait carries only (src, dst, tag): the
+    replayer must pair the k-th wait of a key with the k-th pending request of that key, as the online run did.
+    side: which rank holds the same-key requests (receiver: Irecv x k; sender: Isend x k; both)."""
+    a = rng.below(n)
+    b = (a + 1 + rng.below(n - 1)) % n
+    c = rng.choice([r for r in range(n) if r not in (a, b)])
+    k = rng.choice([2, 2, 2, 3])
+    sizes = [1000, 20000, 70000, 200000, 500000]        # different sizes: eager and rendezvous, 1 kB .. 4 MB
+    rng.shuffle(sizes)
+    return {"k": "samekey", "ty": rng.choice(["i", "d", "c", "b"]), "src": a, "dst": b, "third": c,
+            "tag": rng.range(0, 9), "tag2": rng.range(0, 9), "cnts": sizes[:k], "tok": rng.choice([1, 10, 100, 30000]),
+            "side": rng.choice(["recv", "recv", "send", "both"]), "last_waitall": rng.chance(1, 4)}
+
+
+def gen_samekey_prog(rng):
+    """a program around one or two `samekey` steps (n >= 3: a third rank observes), see gen_samekey_step"""
+    n = rng.range(3, 6)
+    simple = lambda: gen_prog_step(rng, n, rng.choice(["p2p", "barrier", "bcast", "allreduce", "nb", "ring"]), 0)
+    steps = [simple() for _ in range(rng.below(3))]
+    for _ in range(rng.choice([1, 1, 2])):
+        steps.append(gen_samekey_step(rng, n))
+        if rng.chance(1, 2):
+            steps.append(simple())
+    return {"n": n, "steps": steps}
 
 
 def gen_prog(rng):
@@ -32,6 +64,13 @@ def gen_prog(rng):
         k = rng.choice(["p2p", "ring", "nb", "barrier", "bcast", "reduce", "allreduce", "alltoall", "gather", "scatter",
                         "allgather", "gatherv", "scatterv", "allgatherv", "alltoallv", "reducescatter", "gather",
                         "p2p", "nb", "shift", "scan", "exscan", "nbt", "poll"])
+        steps.append(gen_prog_step(rng, n, k, len(steps)))
+    return {"n": n, "steps": steps}
+
+
+def gen_prog_step(rng, n, k, nsteps):
+    """one step of kind k of a program of n ranks (nsteps = number of steps before it: makes the poll tags unique)"""
+    if True:
         ty = rng.choice(["i", "d", "c", "b"])
         cnt = rng.choice([1, 2, 10, 100, 1000, 5000, 20000, 3, 7])
         if k in ("reduce", "allreduce", "reducescatter"):
@@ -48,7 +87,7 @@ def gen_prog(rng):
         elif k == "poll":                            # isend, MPI_Test until it succeeds; keys (src, dst, tag) unique per program
             a = rng.below(n)
             b = (a + 1 + rng.below(n - 1)) % n
-            st.update(src=a, dst=b, tag=100 + len(steps), cnt=rng.choice([10, 5000, 200000]))
+            st.update(src=a, dst=b, tag=100 + nsteps, cnt=rng.choice([10, 5000, 200000]))
         elif k == "ring":
             st.update(tag=rng.range(0, 9), cnt=rng.choice([1, 10, 1000, 20000]), waitall=rng.below(2))
         elif k == "shift":                           # MPI_Sendrecv ring shift (tags 0: the TI record has no tags)
@@ -77,8 +116,7 @@ def gen_prog(rng):
             st.update(counts=[rng.choice([1, 2, 5, 30]) for _ in range(n)], root=rng.below(n))
         elif k == "alltoallv":
             st.update(mat=[[rng.choice([0, 1, 2, 9]) for _ in range(n)] for _ in range(n)])
-        steps.append(st)
-    return {"n": n, "steps": steps}
+        return st
 
 
 def expand(prog):
@@ -117,6 +155,33 @@ def expand(prog):
             lines += ["%d test 0" % a, "%d test 0" % b, "%d waitall" % a, "%d waitall" % b]
             exp[a] += [("isend", [b, st["tag"], st["cnt"], ti]), ("test", [a, b, st["tag"]]), ("waitall", [1])]
             exp[b] += [("irecv", [a, st["tag"], st["cnt"], ti]), ("test", [a, b, st["tag"]]), ("waitall", [1])]
+        elif k == "samekey":
+            a, b, c, tag, tag2, tok = st["src"], st["dst"], st["third"], st["tag"], st["tag2"], st["tok"]
+            cnts = st["cnts"]
+            kk = len(cnts)
+            # order in which the pending requests are waited for: positions in the list of pending requests (oldest
+            # first) of successive `wait` commands.  Generated: posting order (0, 0, ...).  "lifo" (hand-written
+            # experiments only): newest first -- NOT what the replay can reproduce (the TI format has no request ids).
+            pos = [0] * kk if st.get("order", "fifo") == "fifo" else list(range(kk - 1, -1, -1))
+            for side, r, peer, nb, bl in (("send", a, b, "isend", "send"), ("recv", b, a, "irecv", "recv")):
+                mine = st["side"] in (side, "both")
+                for cnt in cnts:
+                    lines.append("%d %s %d %d %d %s" % (r, nb if mine else bl, peer, tag, cnt, t))
+                    exp[r].append((nb if mine else bl, [peer, tag, cnt, ti]))
+                if not mine:
+                    continue
+                for i in range(kk):
+                    if i == kk - 1 and st.get("last_waitall"):
+                        lines.append("%d waitall" % r)
+                        exp[r].append(("waitall", [1]))
+                    else:
+                        lines.append("%d wait %d" % (r, pos[i]))
+                        exp[r].append(("wait", [a, b, tag]))
+                    if i < kk - 1:
+                        lines.append("%d send %d %d %d %s" % (r, c, tag2, tok, t))
+                        exp[r].append(("send", [c, tag2, tok, ti]))
+                        lines.append("%d recv %d %d %d %s" % (c, r, tag2, tok, t))
+                        exp[c].append(("recv", [r, tag2, tok, ti]))
         elif k == "poll":
             a, b = st["src"], st["dst"]
             lines.append("%d isend %d %d %d %s" % (a, b, st["tag"], st["cnt"], t))
@@ -247,13 +312,23 @@ def has_stale(prog):
 def report(ctx, what, case, key):
     """a defect that is not (yet) registered in known_findings.txt is printed and recorded, but does not fail the check
     (the check of the unchanged tree must stay at exit 0); once registered it goes through ctx.violation (KNOWN-FINDING)"""
-    if key == KEY_STALE and KEY_STALE not in core.known_findings().get(ctx.pid, {}):
+    if key in SOFT_KEYS and key not in core.known_findings().get(ctx.pid, {}):
         print("PROPOSED-FINDING: property=%s key=%s %s" % (ctx.pid, key, what[:240]))
         ctx.cov.setdefault("proposed_findings_hit", [])
         if key not in ctx.cov["proposed_findings_hit"]:
             ctx.cov["proposed_findings_hit"].append(key)
         return
     ctx.violation(what, case, key=key)
+
+
+def has_samekey(prog):
+    return any(st["k"] == "samekey" for st in prog["steps"])
+
+
+def has_out_of_order(prog):
+    """same-key requests waited for in another order than they were posted (hand-written corpus witness only: the TI
+    record of a wait has no request identity, the replay cannot know which one was meant)"""
+    return any(st["k"] == "samekey" and st.get("order", "fifo") != "fifo" for st in prog["steps"])
 
 
 def has_recv0(prog):
@@ -274,6 +349,14 @@ class Runner:
         open(self.plat, "w").write(PLAT)
         open(self.hosts, "w").write("".join("h%d\n" % i for i in range(8)))
         self.smpirun = os.path.join(core.SGBUILD, "smpi_script", "bin", "smpirun")
+        libdir = os.environ.get("VERIF_C37_LIBDIR")
+        if libdir:
+            # experiment knob (as VERIF_C34_LIBDIR): run with another libsimgrid.so (e.g. one relinked with a patched
+            # smpi_replay.cpp); smpirun puts its own lib directory first, so use a copy of the script that does not
+            txt = open(self.smpirun).read().replace('export LD_LIBRARY_PATH="', 'export LD_LIBRARY_PATH="%s:' % libdir, 1)
+            self.smpirun = os.path.join(ctx.work, "smpirun-libdir")
+            open(self.smpirun, "w").write(txt)
+            os.chmod(self.smpirun, 0o755)
 
     def base(self, n):
         return [self.smpirun, "-np", str(n), "-platform", self.plat, "-hostfile", self.hosts,
@@ -357,15 +440,24 @@ def run(ctx):
     if ctx.replay:
         progs = [json.load(open(ctx.replay))["case"]["prog"]]
     else:
-        progs = corpus + [gen_prog(rng.fork(i)) for i in range(nprog)]
+        # separate class (own stream of the seed, the ordinary programs of a seed stay what they were): several pending
+        # requests under one (sender, receiver, tag), waited for one by one -- outside `WfProg` of the Lean theorem on
+        # the issued calls, inside the property: judged by the date monitor (and the per-line grammar check)
+        nsame = 6 if ctx.tier == "quick" else 40
+        if ctx.broken:
+            nsame *= 10
+        progs = corpus + [gen_prog(rng.fork(i)) for i in range(nprog)] + \
+            [gen_samekey_prog(rng.fork(1000000 + i)) for i in range(nsame)]
         if os.environ.get("VERIF_C37_NO_RECV0"):     # experiment knob: drop the programs that reach the known defect
             progs = [p for p in progs if not has_recv0(p)]
     dlines, owners = [], []
     kinds = {}
     nrep = 0
+    nsamekey_ok = 0
     for pi, prog in enumerate(progs):
         lines, exp = expand(prog)
-        key = KEY_RECV0 if has_recv0(prog) else (KEY_STALE if has_stale(prog) else None)
+        key = KEY_RECV0 if has_recv0(prog) else (KEY_STALE if has_stale(prog) else (
+            KEY_OOO if has_out_of_order(prog) else (KEY_SAMEKEY if has_samekey(prog) else None)))
         dates, trace, tr = R.online(prog, lines, "p")
         if dates is None and "loading shared libraries" in str(tr):
             ctx.ensure_simgrid(["simgrid", "smpimain", "smpireplaymain"])    # the shared build was being relinked: wait
@@ -414,6 +506,8 @@ def run(ctx):
         else:
             nrep += 1
             ctx.cov["distinct_nontrivial"] += 1
+            if has_samekey(prog):
+                nsamekey_ok += 1
     rc, verdicts, err = ctx.run_lines([drv], dlines)
     if rc != 0 or not verdicts or verdicts[-1] != "END %d" % len(dlines):
         ctx.broken.append({"kind": "driver-run", "rc": rc, "stderr": err[-2000:]})
@@ -433,5 +527,7 @@ def run(ctx):
         else:
             ctx.broken.append({"kind": "driver-badline", "line": l, "verdict": v})
     ctx.cov["samples"] = dlines[:3] + dlines[40:43]
-    ctx.cov["distribution"] = {"trace_lines_by_call": kinds, "programs": len(progs), "programs_replayed_with_equal_dates": nrep}
+    ctx.cov["distribution"] = {"trace_lines_by_call": kinds, "programs": len(progs), "programs_replayed_with_equal_dates": nrep,
+                               "same_key_programs": len([p for p in progs if has_samekey(p)]),
+                               "same_key_programs_replayed_with_equal_dates": nsamekey_ok}
     shutil.rmtree(os.path.join(ctx.work, "case-p"), ignore_errors=True)
